@@ -228,6 +228,9 @@ ARGV_TEMPLATES = [
     dict(name="stereo-u1", argv=["-c", "2", "-u", "1"]),
     dict(name="stereo-mix", argv=["-c", "2", "-u", "mix", "-e", "75"]),
     dict(name="threshold", argv=["-e", "85"]),
+    dict(name="timestamp-spec", argv=["--printf", "{id} {start} {end} [{timestamp:>8}|{timestamp!s}]", "--timestamp-format", "%Y"]),
+    dict(name="input-format", argv=["-f", "raw"], input="capture.pcm"),
+    dict(name="input-format-lazy", argv=["-f", "raw", "-L"], input="capture"),
     dict(name="unicode-printf", argv=["--printf", "\u2192 {id}: {start} \u00e9 {end}\\t|"]),
     dict(name="stereo-u-1", argv=["-c", "2", "-u", "-1"]),
     dict(name="stereo-u-2", argv=["-c", "2", "-u", "-2"]),
@@ -257,7 +260,7 @@ def run_cli(mods, s, tpl, data, captured, fs_install=None):
     if tpl.get("stdin"):
         argv += ["-"]
     else:
-        argv += ["in.raw"]
+        argv += [tpl.get("input", "in.raw")]
     old_argv = sys.argv
     sys.argv = ["auditok"]
     try:
@@ -283,7 +286,9 @@ def e2e_expected(core, tpl, data, util):
         pf = argv[argv.index("--printf") + 1].replace("\\n", "\n").replace("\\t", "\t").replace("\\r", "\r")
     tf = argv[argv.index("--time-format") + 1] if "--time-format" in argv else "%S"
     fmtr = util.make_duration_formatter(tf)
-    lines = [pf.format(id=i, start=fmtr(r.meta.start), end=fmtr(r.meta.end), duration=fmtr(r.duration), timestamp="")
+    import datetime as _dt
+    ts = _dt.datetime.now().strftime(argv[argv.index("--timestamp-format") + 1]) if "--timestamp-format" in argv else ""
+    lines = [pf.format(id=i, start=fmtr(r.meta.start), end=fmtr(r.meta.end), duration=fmtr(r.duration), timestamp=ts)
              for i, r in enumerate(regs, 1)]
     if "-q" in argv:
         lines = []
@@ -300,7 +305,7 @@ def e2e_harness(L, tpl, K):
         s = S.Sched(e, max_timeouts=10 ** 6, max_preempt=10 ** 6)
         s.script = []                       # fair deterministic policy: first runnable thread; sleep yields to the workers
         fs = iostub.FS()
-        fs.files["in.raw"] = iostub.RawEntry(data)
+        fs.files[tpl.get("input", "in.raw")] = iostub.RawEntry(data)
         iostub.install(L, fs, stdin_data=data)
         out_lines, err_lines = [], []
 
@@ -330,7 +335,7 @@ def e2e_harness(L, tpl, K):
 def fs_files(fs):
     out = {}
     for k, ent in fs.files.items():
-        if k in ("in.raw", "<stdin>"):
+        if k in ("in.raw", "<stdin>", "capture.pcm", "capture"):
             continue
         try:
             out[k] = (bytes(ent.data), (getattr(ent, "rate", None), getattr(ent, "width", None), getattr(ent, "channels", None)), getattr(ent, "finalised", True))
@@ -478,7 +483,7 @@ def replay_e2e(c):
     tmp = tempfile.mkdtemp(prefix="sxv-c15-")
     cwd = os.getcwd()
     os.chdir(tmp)
-    open("in.raw", "wb").write(data)
+    open(tpl.get("input", "in.raw"), "wb").write(data)
     s = S.Sched(None, max_timeouts=10 ** 6, max_preempt=10 ** 6)
     s.script = []
     out_lines, err_lines = [], []
@@ -506,7 +511,7 @@ def replay_e2e(c):
         import wave as _wave
         files = {}
         for nm in os.listdir(tmp):
-            if nm == "in.raw":
+            if nm in ("in.raw", "capture.pcm", "capture"):
                 continue
             try:
                 with _wave.open(nm, "rb") as w:
